@@ -664,6 +664,309 @@ static void run_family(Result &R, Counters &total, const char *pred, int npts, c
   }
 }
 
+// ---------------------------------------------------------------------------
+// generic near-degenerate families: full 52-bit mantissas, so that the
+// double evaluation of the filter really rounds. No random numbers: the
+// coordinates are Weyl sequences frac(k*phi), frac(k*sqrt2), frac(k*sqrt3),
+// frac(k*sqrt5) in exact 64-bit fixed point (top 52 bits -> mantissa).
+//   orientation: base triple a,b,c of generic points (three scales: b,c within
+//     1, 2^-10, 2^-20 of a), generic affine coefficients (s,t), fourth point
+//     d = a + s(b-a) + t(c-a) evaluated in __float128 and rounded to double
+//     (coplanar to within half an ulp per coordinate), then every one of the
+//     12 coordinates moved by k = -4..4 ulp;
+//   in-sphere: base quadruple of generic points close to a generic sphere,
+//     circumsphere of the four doubles in __float128, fifth point on it along
+//     generic directions, rounded, every one of the 15 coordinates moved by
+//     k = -4..4 ulp.
+// Every input is compared with the exact integer determinant; the predicates
+// are called on the identity and on permutations (all 24; 12 of 120 quick /
+// all 120 thorough).
+// ---------------------------------------------------------------------------
+typedef __float128 Quad;
+static const uint64_t WEYL[4] = {0x9E3779B97F4A7C15ull,  // frac(phi)
+                                 0x6A09E667F3BCC908ull,  // frac(sqrt 2)
+                                 0xBB67AE8584CAA73Bull,  // frac(sqrt 3)
+                                 0x3C6EF372FE94F82Bull}; // frac(sqrt 5)
+/// frac(k * irrational_j) with 52 significant bits, in [0,1)
+static inline double weyl(uint64_t k, int j) {
+  const uint64_t m = (k * WEYL[j]) >> 12; // top 52 bits
+  return std::ldexp((double)m, -52);
+}
+static Quad qsqrt(Quad x) {
+  Quad r = (Quad)sqrtl((long double)x);
+  r = 0.5 * (r + x / r);
+  r = 0.5 * (r + x / r);
+  return r;
+}
+static inline bool in12(double x) { return x >= 1. && x < 2.; }
+
+/// plain double evaluation of the in-sphere formula (statistics only)
+static inline int naive_insphere(const double p[15]) {
+  const double aex = p[0] - p[12], aey = p[1] - p[13], aez = p[2] - p[14];
+  const double bex = p[3] - p[12], bey = p[4] - p[13], bez = p[5] - p[14];
+  const double cex = p[6] - p[12], cey = p[7] - p[13], cez = p[8] - p[14];
+  const double dex = p[9] - p[12], dey = p[10] - p[13], dez = p[11] - p[14];
+  const double ab = aex * bey - bex * aey, bc = bex * cey - cex * bey, cd = cex * dey - dex * cey;
+  const double da = dex * aey - aex * dey, ac = aex * cey - cex * aey, bd = bex * dey - dex * bey;
+  const double abc = aez * bc - bez * ac + cez * ab, bcd = bez * cd - cez * bd + dez * bc;
+  const double cda = cez * da + dez * ac + aez * cd, dab = dez * ab + aez * bd + bez * da;
+  const double a2 = aex * aex + aey * aey + aez * aez, b2 = bex * bex + bey * bey + bez * bez;
+  const double c2 = cex * cex + cey * cey + cez * cez, d2 = dex * dex + dey * dey + dez * dez;
+  const double r = (d2 * abc - c2 * dab) + (b2 * cda - a2 * bcd);
+  return r > 0. ? 1 : (r < 0. ? -1 : 0);
+}
+
+struct GenericStats {
+  uint64_t bases = 0, bases_skipped_range = 0;
+  uint64_t inputs = 0, det_zero = 0, naive_wrong = 0;
+  uint64_t inputs_with_wrong_result = 0, wrong_results = 0;
+  void add(const GenericStats &o) {
+    bases += o.bases;
+    bases_skipped_range += o.bases_skipped_range;
+    inputs += o.inputs;
+    det_zero += o.det_zero;
+    naive_wrong += o.naive_wrong;
+    inputs_with_wrong_result += o.inputs_with_wrong_result;
+    wrong_results += o.wrong_results;
+  }
+};
+
+/// all ulp moves of one base configuration through the oracle and the real predicates
+static void generic_variants(Result &R, Counters &C, GenericStats &G, const char *pred, const char *fam,
+                             const double *base, int npts, const std::vector< Perm > &perms, size_t perm_stride) {
+  const int n = 3 * npts;
+  const bool orient = (npts == 4);
+  for (int coord = 0; coord < n; ++coord)
+    for (int k = -4; k <= 4; ++k) {
+      if (k == 0 && coord != 0)
+        continue;
+      double p[15];
+      for (int i = 0; i < n; ++i)
+        p[i] = base[i];
+      p[coord] = base[coord] + k * ULP;
+      if (!in12(p[coord])) {
+        ++C.skipped_range;
+        continue;
+      }
+      const int ref = orient ? orient_sign(p) : insphere_sign(p);
+      ++G.inputs;
+      ++C.inputs;
+      ++C.nontrivial;
+      if (ref == 0)
+        ++G.det_zero;
+      if ((orient ? naive_orient(p) : naive_insphere(p)) != ref)
+        ++G.naive_wrong;
+      bool any = false;
+      for (size_t iq = 0; iq < perms.size(); iq += perm_stride) {
+        const Perm &q = perms[iq];
+        double pp[15];
+        for (int i = 0; i < npts; ++i)
+          for (int c = 0; c < 3; ++c)
+            pp[3 * i + c] = p[3 * q.p[i] + c];
+        const int ex = orient ? code_orient_exact(pp) : code_insphere_exact(pp);
+        const int ad = orient ? code_orient_adaptive(pp) : code_insphere_adaptive(pp);
+        C.calls += 2;
+        ++C.perm_checks;
+        const int want = q.sign * ref;
+        if (ex != want || ad != want) {
+          any = true;
+          ++G.wrong_results;
+          judge(R, C, pred, fam, pp, npts, want, ex, ad);
+        }
+      }
+      if (any)
+        ++G.inputs_with_wrong_result;
+    }
+}
+
+static void run_generic_orient(Result &R, Counters &total, GenericStats &GS, bool thorough, long seed,
+                               bool &complete) {
+  const int ntriples = thorough ? 1000 : 250;
+  const int npairs = thorough ? 16 : 16;
+  const int nscales = 3;
+  const int shifts[3] = {0, 10, 20};
+  const std::vector< Perm > perms = permutations(4);
+  const long ntask = (long)nscales * ntriples;
+  const long rot = ntask ? (long)(((uint64_t)seed * 7919u) % (uint64_t)ntask) : 0;
+  bool stop = false;
+#pragma omp parallel
+  {
+    Counters C;
+    GenericStats G;
+#pragma omp for schedule(dynamic, 4)
+    for (long kt = 0; kt < ntask; ++kt) {
+      if (stop)
+        continue;
+      if (R.out_of_time()) {
+        stop = true;
+        continue;
+      }
+      const long task = (kt + rot) % ntask;
+      const int isc = (int)(task / ntriples);
+      const uint64_t tr = (uint64_t)(task % ntriples);
+      const double sc = std::ldexp(1., -shifts[isc]);
+      // generic triple: a anywhere in [1.25,1.75)^3, b and c within sc/4 of a
+      double a[3], b[3], c[3];
+      for (int j = 0; j < 3; ++j) {
+        a[j] = 1.25 + 0.5 * weyl(7 * tr + 1, j);
+        b[j] = a[j] + 0.5 * sc * (weyl(7 * tr + 2, (j + 1) % 4) - 0.5);
+        c[j] = a[j] + 0.5 * sc * (weyl(7 * tr + 3, (j + 2) % 4) - 0.5);
+      }
+      const std::string fam = "generic-near-coplanar";
+      for (int ip = 0; ip < npairs; ++ip) {
+        // affine coefficients in [-0.5,1.5): inside and outside the triangle
+        const double s = 2. * weyl(1000003ull * (tr + 1) + 31 * ip + 5, 3) - 0.5;
+        const double t = 2. * weyl(1000003ull * (tr + 1) + 31 * ip + 6, 0) - 0.5;
+        double base[12];
+        bool ok = true;
+        for (int j = 0; j < 3; ++j) {
+          const Quad dq = (Quad)a[j] + (Quad)s * ((Quad)b[j] - (Quad)a[j]) + (Quad)t * ((Quad)c[j] - (Quad)a[j]);
+          base[j] = a[j];
+          base[3 + j] = b[j];
+          base[6 + j] = c[j];
+          base[9 + j] = (double)dq; // rounded to nearest
+          if (!in12(base[9 + j]) || !in12(b[j]) || !in12(c[j]))
+            ok = false;
+        }
+        if (!ok) {
+          ++G.bases_skipped_range;
+          continue;
+        }
+        ++G.bases;
+        generic_variants(R, C, G, "orient3d", fam.c_str(), base, 4, perms, 1);
+        if (task == ntask / 2 && ip == 0)
+          R.sample(fmt("{\"pred\": \"orient3d\", \"family\": \"generic-near-coplanar\", \"scale\": \"2^-%d\", "
+                       "\"s\": %.17g, \"t\": %.17g, \"points\": \"%s\"}",
+                       shifts[isc], s, t, pts_hex(base, 12).c_str()));
+      }
+    }
+#pragma omp critical
+    {
+      total.add(C);
+      GS.add(G);
+    }
+  }
+  if (stop) {
+    complete = false;
+    R.hit_deadline("orient3d generic-near-coplanar family not finished");
+  }
+}
+
+static void run_generic_insphere(Result &R, Counters &total, GenericStats &GS, bool thorough, long seed,
+                                 bool &complete) {
+  const int nquads = thorough ? 600 : 200;
+  const int ndirs = thorough ? 60 : 40;
+  const std::vector< Perm > perms = permutations(5);
+  const size_t stride = thorough ? 1 : 10; // 12 of the 120 permutations in the quick tier (both parities)
+  const long ntask = nquads;
+  const long rot = ntask ? (long)(((uint64_t)seed * 7919u) % (uint64_t)ntask) : 0;
+  bool stop = false;
+#pragma omp parallel
+  {
+    Counters C;
+    GenericStats G;
+#pragma omp for schedule(dynamic, 1)
+    for (long kt = 0; kt < ntask; ++kt) {
+      if (stop)
+        continue;
+      if (R.out_of_time()) {
+        stop = true;
+        continue;
+      }
+      const uint64_t q = (uint64_t)((kt + rot) % ntask);
+      // four generic points near a generic sphere (centre near 1.5, radius 2^-1..2^-12 times 0.2..0.4)
+      const int shift = (int)(q % 3) * 6; // radii ~0.3, ~5e-3, ~7e-5
+      const double rad = std::ldexp(0.2 + 0.2 * weyl(11 * q + 1, 0), -shift);
+      double ctr[3];
+      for (int j = 0; j < 3; ++j)
+        ctr[j] = 1.45 + 0.1 * weyl(11 * q + 2, j + 1);
+      double P4[12];
+      bool ok = true;
+      for (int i = 0; i < 4; ++i) {
+        double v[3], nrm = 0.;
+        for (int j = 0; j < 3; ++j) {
+          v[j] = weyl(11 * q + 3 + i, (i + j) % 4) - 0.5;
+          nrm += v[j] * v[j];
+        }
+        nrm = std::sqrt(nrm);
+        for (int j = 0; j < 3; ++j) {
+          // radial scatter of a few percent: the four points are generic, not on the sphere
+          P4[3 * i + j] = ctr[j] + rad * (1. + 0.05 * (weyl(11 * q + 7 + i, j) - 0.5)) * v[j] / nrm;
+          if (!in12(P4[3 * i + j]))
+            ok = false;
+        }
+      }
+      if (!ok) {
+        ++G.bases_skipped_range;
+        continue;
+      }
+      // circumsphere of the four doubles in binary128: 2 (p_i - p_0) . x = |p_i|^2 - |p_0|^2 (relative to p_0)
+      Quad M[3][3], rhs[3];
+      for (int i = 0; i < 3; ++i) {
+        rhs[i] = 0;
+        for (int j = 0; j < 3; ++j) {
+          M[i][j] = (Quad)P4[3 * (i + 1) + j] - (Quad)P4[j];
+          rhs[i] += M[i][j] * M[i][j];
+        }
+        rhs[i] *= 0.5;
+      }
+      const Quad det = M[0][0] * (M[1][1] * M[2][2] - M[1][2] * M[2][1]) -
+                       M[0][1] * (M[1][0] * M[2][2] - M[1][2] * M[2][0]) +
+                       M[0][2] * (M[1][0] * M[2][1] - M[1][1] * M[2][0]);
+      if (det == 0)
+        continue;
+      Quad x[3]; // centre relative to p_0 (Cramer)
+      for (int col = 0; col < 3; ++col) {
+        Quad Mc[3][3];
+        for (int i = 0; i < 3; ++i)
+          for (int j = 0; j < 3; ++j)
+            Mc[i][j] = (j == col) ? rhs[i] : M[i][j];
+        x[col] = (Mc[0][0] * (Mc[1][1] * Mc[2][2] - Mc[1][2] * Mc[2][1]) -
+                  Mc[0][1] * (Mc[1][0] * Mc[2][2] - Mc[1][2] * Mc[2][0]) +
+                  Mc[0][2] * (Mc[1][0] * Mc[2][1] - Mc[1][1] * Mc[2][0])) /
+                 det;
+      }
+      const Quad R2 = x[0] * x[0] + x[1] * x[1] + x[2] * x[2];
+      for (int id = 0; id < ndirs; ++id) {
+        Quad v[3], n2 = 0;
+        for (int j = 0; j < 3; ++j) {
+          v[j] = (Quad)(weyl(1000003ull * (q + 1) + 17 * id + j, (id + j) % 4) - 0.5);
+          n2 += v[j] * v[j];
+        }
+        const Quad f = qsqrt(R2 / n2);
+        double base[15];
+        bool inr = true;
+        for (int i = 0; i < 12; ++i)
+          base[i] = P4[i];
+        for (int j = 0; j < 3; ++j) {
+          base[12 + j] = (double)((Quad)P4[j] + x[j] + f * v[j]);
+          if (!in12(base[12 + j]))
+            inr = false;
+        }
+        if (!inr) {
+          ++G.bases_skipped_range;
+          continue;
+        }
+        ++G.bases;
+        generic_variants(R, C, G, "insphere", "generic-near-cospherical", base, 5, perms, stride);
+        if (q == (uint64_t)ntask / 2 && id == 0)
+          R.sample(fmt("{\"pred\": \"insphere\", \"family\": \"generic-near-cospherical\", \"radius\": %.6g, "
+                       "\"points\": \"%s\"}",
+                       (double)qsqrt(R2), pts_hex(base, 15).c_str()));
+      }
+    }
+#pragma omp critical
+    {
+      total.add(C);
+      GS.add(G);
+    }
+  }
+  if (stop) {
+    complete = false;
+    R.hit_deadline("insphere generic-near-cospherical family not finished");
+  }
+}
+
 static Shape cube(double lo, double hi, const char *name) {
   Shape S;
   S.name = name;
@@ -962,12 +1265,34 @@ int main(int argc, char **argv) {
       run_family(R, Cfi, "insphere", 5, S, ks, complete);
   }
   R.set("wall_insphere_families_s", R.elapsed() - t0);
+  t0 = R.elapsed();
+  Counters Cgo, Cgi;
+  GenericStats Ggo, Ggi;
+  if (only.empty() || only == "generic" || only == "orient")
+    run_generic_orient(R, Cgo, Ggo, th, A.seed, complete);
+  if (only.empty() || only == "generic" || only == "insphere")
+    run_generic_insphere(R, Cgi, Ggi, th, A.seed, complete);
+  R.set("wall_generic_families_s", R.elapsed() - t0);
+  R.set("generic_orient_bases", (double)Ggo.bases);
+  R.set("generic_orient_bases_leaving_[1,2)_skipped", (double)Ggo.bases_skipped_range);
+  R.set("generic_orient_inputs", (double)Ggo.inputs);
+  R.set("generic_orient_det_zero", (double)Ggo.det_zero);
+  R.set("generic_orient_plain_double_sign_wrong(info)", (double)Ggo.naive_wrong);
+  R.set("generic_orient_inputs_with_a_wrong_result", (double)Ggo.inputs_with_wrong_result);
+  R.set("generic_insphere_bases", (double)Ggi.bases);
+  R.set("generic_insphere_bases_leaving_[1,2)_skipped", (double)Ggi.bases_skipped_range);
+  R.set("generic_insphere_inputs", (double)Ggi.inputs);
+  R.set("generic_insphere_det_zero", (double)Ggi.det_zero);
+  R.set("generic_insphere_plain_double_sign_wrong(info)", (double)Ggi.naive_wrong);
+  R.set("generic_insphere_inputs_with_a_wrong_result", (double)Ggi.inputs_with_wrong_result);
 
   Counters T;
   T.add(Co);
   T.add(Ci);
   T.add(Cfo);
   T.add(Cfi);
+  T.add(Cgo);
+  T.add(Cgi);
   R.evaluations = T.calls;
   R.nontrivial = T.nontrivial;
   R.set("ordered_inputs_compared_with_the_exact_sign", (double)T.inputs);
@@ -1001,7 +1326,9 @@ int main(int argc, char **argv) {
            "visited as multiset of points x all its arrangements: determinant once per multiset, every "
            "arrangement (= one ordered input) called and compared with sign(arrangement) x sign(det); corner "
            "families: every 4/5-subset of cube corners / octahedron vertices, every coordinate moved by every k "
-           "ulp, every permutation called directly. Non-trivial = inputs whose points are pairwise distinct.";
+           "ulp, every permutation called directly; generic families: full-mantissa Weyl-sequence points, fourth / "
+           "fifth point on the plane / circumsphere of the others (binary128, rounded), every coordinate moved by "
+           "-4..4 ulp, permutations called directly. Non-trivial = inputs whose points are pairwise distinct.";
   R.assumptions.push_back("coordinates in the normalised range [1,2) as the predicates require (moves of a "
                           "corner coordinate that leave the range are skipped and counted)");
   R.assumptions.push_back("the property is decided on the finite alphabets listed; nothing is claimed for "
